@@ -221,10 +221,93 @@ def gen_constant_sites(man):
     return "\n".join(lines)
 
 
-GENERATORS = {"AddLocalSites.v": gen_add_local_sites, "OperandArith.v": gen_operand_arith, "ConstantSites.v": gen_constant_sites}
+# ---------------------------------------------------------------------------------------------------------------
+# the compiler never LOOKS at the bytes it has emitted (round 7).  A byte of `chunk.code` is an opcode or an operand;
+# compiler.rs keeps no record of instruction boundaries, so any decision taken on `code.last()`, `code[i]` (read),
+# `code.get(..)`, `code.iter()`, a borrowed `&chunk.code` ... may be taken on an operand byte (seeded change: the
+# implicit `nil; return` epilogue skipped when the last byte equals OpCode::Return - also true after a 57-element vec
+# literal).  Today every use of `.code` in compiler.rs is `.code.len()` or a back-patching WRITE `.code[i] = b`, and
+# the only members of a chunk the compiler touches are `code`, `write`, `add_constant`.  Anything else is `read` /
+# a new member = the obligation of props/C04.v fails (fail closed); run-time counterpart: family `operand_alias`.
+#
+# Second table: every comparison with JUMP_SIZE_MAX in compiler.rs with its operator.  The three users (patch_jump,
+# emit_loop, patch_offset_at) must agree on what the constant means: a site `x > J` accepts x <= J, a site `x >= J`
+# accepts x <= J - 1; each must accept at most 65535 (seeded change: J made exclusive, two sites moved to `>=`, the
+# third forgotten).
+
+def code_uses(src):
+    toks = lex(src)
+    ranges = fn_ranges(toks)
+    uses = []
+    for i in find_all_seq(toks, [".", "code"]):
+        k = i + 2
+        nxt = toks[k].text if k < len(toks) else ""
+        if nxt == "." and k + 3 < len(toks) and toks[k + 1].text == "len" and toks[k + 2].text == "(" and toks[k + 3].text == ")":
+            kind = "len"
+        elif nxt == "[":
+            close = match_group(toks, k)
+            after = toks[close + 1].text if close + 1 < len(toks) else ""
+            kind = "write" if after == "=" else "read"
+        else:
+            kind = "read"
+        uses.append((enclosing_fn(ranges, i), toks[i].line, kind))
+    members = set()
+    for i, t in enumerate(toks):
+        if t.kind == "id" and t.text == "chunk":
+            j = i + 1
+            if j + 1 < len(toks) and toks[j].text == "(" and toks[j + 1].text == ")":
+                j += 2
+            if j + 1 < len(toks) and toks[j].text == "." and toks[j + 1].kind == "id":
+                members.add(toks[j + 1].text)
+    return uses, sorted(members)
+
+
+def jump_limit_sites(src):
+    toks = lex(src)
+    ranges = fn_ranges(toks)
+    sites = []
+    cmp_ops = (">", ">=", "<", "<=", "==", "!=")
+    for i, t in enumerate(toks):
+        if t.kind == "id" and t.text == "JUMP_SIZE_MAX":
+            lo = i
+            while lo >= 2 and toks[lo - 1].text == "::":
+                lo -= 2
+            before = toks[lo - 1].text if lo >= 1 else ""
+            after = toks[i + 1].text if i + 1 < len(toks) else ""
+            if before in cmp_ops:
+                op = before                       # x OP JUMP_SIZE_MAX
+            elif after in cmp_ops:
+                op = "flipped" + after            # JUMP_SIZE_MAX OP x: not the recognised shape
+            else:
+                op = "?"
+            sites.append((enclosing_fn(ranges, i), toks[i].line, op))
+    return sites
+
+
+def gen_code_reads(man):
+    with open(os.path.join(SRC, "compiler.rs")) as fh:
+        src = fh.read()
+    uses, members = code_uses(src)
+    jsites = jump_limit_sites(src)
+    man["c04_code_uses"] = [{"fn": f, "line": l, "kind": k} for f, l, k in uses]
+    man["c04_chunk_members"] = members
+    man["c04_jump_limit_sites"] = [{"fn": f, "line": l, "op": o} for f, l, o in jsites]
+    lines = ["(* GENERATED by translator/translate_c04.py from compiler.rs - do not edit *)",
+             "From Coq Require Import List String Bool.", "Import ListNotations.", "Open Scope string_scope.", "",
+             "(* (enclosing function, len | write | read) for every `.code` in compiler.rs, in source order *)",
+             "Definition code_uses : list (string * string) := [%s]." % "; ".join('("%s", "%s")' % (f, k) for f, l, k in uses),
+             "(* members of a chunk that compiler.rs names (`chunk().X`, `.chunk.X`), sorted *)",
+             "Definition chunk_members : list string := [%s]." % "; ".join('"%s"' % m for m in members),
+             "(* (enclosing function, comparison operator in front of JUMP_SIZE_MAX) for every use of the constant *)",
+             "Definition jump_limit_sites : list (string * string) := [%s]." % "; ".join('("%s", "%s")' % (f, o) for f, l, o in jsites), ""]
+    return "\n".join(lines)
+
+
+GENERATORS = {"AddLocalSites.v": gen_add_local_sites, "OperandArith.v": gen_operand_arith, "ConstantSites.v": gen_constant_sites,
+              "CodeReads.v": gen_code_reads}
 
 if __name__ == "__main__":
     # developer aid: python3 translate_c04.py <file.rs>  prints the table of another version of the source
     with open(sys.argv[1]) as fh:
         txt = fh.read()
-    print(operand_arith(txt) if sys.argv[1].endswith("vm.rs") else (extract(txt), constant_sites(txt)))
+    print(operand_arith(txt) if sys.argv[1].endswith("vm.rs") else (extract(txt), constant_sites(txt), code_uses(txt), jump_limit_sites(txt)))
